@@ -187,6 +187,7 @@ func Run(c *gen.Ctx) error {
 		return err
 	}
 	nt += nu
+	nt += nestedListVariables(meta)
 	meta.Evaluations = up.Len() + nt
 	meta.DistinctNontrivial += len(distinct)
 	meta.Rule = meta.Rule + " || AddUpload: 7 variable shapes (no variables, empty, null leaf, list, nested maps/lists incl. numeric-looking keys) x all map paths of 1 and 2 segments over a 20-segment alphabet (existing and missing keys, in-range, out-of-range, negative, signed, zero-padded, overflowing and non-numeric indices, empty segment) plus paths without the prefix, plus random (quick) or all (thorough) 3..5-segment paths; distinct_nontrivial = distinct (shape, path) pairs that pass the prefix test. Transports: see distribution."
